@@ -75,6 +75,10 @@ fn write_body(
         } else {
             source.to_writer(&mut enc)?;
         }
+
+        // Flush the final partial quantum and line explicitly: `Drop` would swallow sink errors.
+        enc.finish()?;
+        line_wrapper.finish()?;
     }
 
     Ok(())
@@ -123,6 +127,11 @@ impl<W: std::io::Write> Base64Encoder<W> {
             writer,
             &general_purpose::STANDARD,
         ))
+    }
+
+    /// Encodes the final partial quantum (if any) and writes it to the underlying writer.
+    pub(crate) fn finish(mut self) -> std::io::Result<()> {
+        self.0.finish().map(|_| ())
     }
 }
 impl<W: std::io::Write> std::io::Write for Base64Encoder<W> {
